@@ -43,11 +43,10 @@ def table(name, first_model_only=True):
         t = []
         for row in rows:
             ch = g(row, "pdbx_formal_charge")
-            # the author identity of a residue is (auth_asym_id, auth_seq_id, auth_comp_id); a file that writes only part of it (8btk_B7.cif has no
-            # auth_comp_id) identifies its residues completely only through the label items, and those are then the identity 'as written'
-            auth_ok = all(g(row, it) is not None for it in ("auth_asym_id", "auth_seq_id", "auth_comp_id"))
-            label_ok = all(g(row, it) is not None for it in ("label_asym_id", "label_seq_id", "label_comp_id"))
-            use_auth = auth_ok or not label_ok
+            # identity: the author items where present; auth_comp_id and auth_atom_id are optional items of a file (8btk_B7.cif has neither) and are
+            # then taken from the label items. (For a while this reader followed the library in falling back to the complete label triple for such
+            # files; that hid a defect of the library - hetero groups without label_seq_id were dropped - see DESIGN.md 4.1.)
+            use_auth = True
             t.append(dict(record=g(row, "group_PDB", "ATOM"), serial=int(g(row, "id")), name=g(row, "auth_atom_id") or g(row, "label_atom_id"),
                           altloc=g(row, "label_alt_id"), resname=(g(row, "auth_comp_id") if use_auth else None) or g(row, "label_comp_id"),
                           chain=(g(row, "auth_asym_id") if use_auth else None) or g(row, "label_asym_id"),
